@@ -596,6 +596,9 @@ func (p *Peer) ReadResponse() (*base.Response, error) {
 	}
 }
 
+// ReadAny reads the next element (response, request or interleaved frame) from the connection.
+func (p *Peer) ReadAny() (any, error) { return p.rc.Read() }
+
 // Do sends a request and reads the response.
 func (p *Peer) Do(req *base.Request) (*base.Response, error) {
 	if err := p.Send(req); err != nil {
